@@ -28,3 +28,24 @@ package transports
 //@   calls d, e2 := (XORObfuscator).TryReveal(o, c, priv)
 //@   ensures @C15: e1 == nil ==> e2 == nil && len(d) == len(p)
 //@   ensures @C15: e1 == nil ==> forall k int :: 0 <= k && k < len(p) ==> d[k] == p[k]
+
+// ---------------- C02: the registration lookup the wrapping transports share ----------------
+// validRegs(rm, phantom): the registrations the manager returns for a phantom address. Its implementation
+// ((*lib.RegistrationManager).GetRegistrations over RegisteredDecoys.getRegistrations) is under contract in
+// pkg/station/lib: every entry is a currently tracked, Valid registration stored under that phantom's string form.
+//@ import net "net"
+//@ import io "io"
+//@ ghost func validRegs(rm RegManager, phantom net.IP) map[string]Registration
+//@ func (rm RegManager) GetRegistrations(phantomAddr net.IP) map[string]Registration
+//@   ensures result == validRegs(rm, phantomAddr)
+//@   assigns nothing
+//@ func PrependToConn(c net.Conn, r io.Reader) PrefixConn
+//@   assigns nothing
+//@   trusted
+//@ import pb "github.com/refraction-networking/conjure/proto"
+//@ ghost func regTransport(r Registration) pb.TransportType
+//@ func (r Registration) TransportType() pb.TransportType
+//@   ensures result == regTransport(r)
+//@   assigns nothing
+//@ func (r Registration) TransportParams() any
+//@   assigns nothing
